@@ -62,7 +62,13 @@ def gen_sequences(r: Run):
         sp = DECORATED_SPEC[(i // 4) % len(DECORATED_SPEC)]
         iseqs.append(["parse " + hx(f) for f in fs] + ["new", f"set 0 {hx(sp)} 5", f"inc 0 {hx(sp)} 2", f"get 0 {hx(sp)}", "get 0 " + hx(b"C"), "mass 0",
                                                         "parse " + hx(b"H2O"), f"get 1 {hx(sp)}"])
-    seqs = dseqs + tseqs + iseqs + [
+    # results exactly on the ends of i32 through the C ABI (scale to i32::MIN, subtract a count of i32::MIN — D31 —, add up to
+    # i32::MAX): representable results must be exact
+    H = hx(b"H")
+    bseqs = [["new", f"set 0 {H} -1073741824", "scale 0 2", f"get 0 {H}", "new", f"set 1 {H} -5", "sub 1 0", f"get 1 {H}", "mass 1",
+              "new", f"set 2 {H} 1073741823", "scale 2 2", f"inc 2 {H} 1", f"get 2 {H}", "copy 2", "scale 3 -1", f"get 3 {H}"],
+             ["new", f"set 0 {H} 1", "scale 0 -2147483648", f"get 0 {H}", "new", f"set 1 {H} -1", "sub 1 0", f"get 1 {H}", "add 0 1", f"get 0 {H}"]]
+    seqs = dseqs + tseqs + iseqs + bseqs + [
         ["parse " + hx(LONG_FORMULA[0]), "mass 0", "parse " + hx(LONG_FORMULA[1]), "get 1 " + hx(b"He"), "get 1 " + hx(b"H"), "parse " + hx(LONG_FORMULA[2]),
          "new", "set 3 " + hx(LONG_SPEC[0]) + " 5", "get 3 " + hx(b"C[13]"), "get 3 " + hx(LONG_SPEC[0]), "inc 3 " + hx(LONG_SPEC[2]) + " 1"],
         ["new", "parse 4829", "set 0 435b785d 1", "get 0 c3a9", "free 0"],
